@@ -170,6 +170,27 @@ def _real_materials_case(case, tier, seed):
             if len(res['violations']) < 5:
                 res['violations'].append(dict(case=case.name, claim='composite_vs_direct[%s].no_exception' % atom, values={},
                                               observed=['%s: %s' % (type(e).__name__, e), None], how='concrete real-table material'))
+    # weights and densities far from 1 (the SLD depends on the weights only through their ratios, and is linear in density)
+    m1, m2 = formulas.formula('Na{+}Cl{-}'), formulas.formula('D2O@1.1n')
+    for scale in (1e-12, 1e-6, 1e6, 1e12):
+        for rho in (1e-12, 1e-3, 4.2):
+            ws = [3 * scale, 1 * scale]
+            try:
+                out = nsf.neutron_composite_sld([m1, m2], wavelength=1.8)(np.array(ws), density=rho)
+                d = nsf.neutron_sld(ws[0] * m1 + ws[1] * m2, density=rho, wavelength=1.8)
+                ref = nsf.neutron_sld(3 * m1 + 1 * m2, density=1.0, wavelength=1.8)
+                for nme, o, dv, rv in zip(('sld_re', 'sld_im', 'sld_inc'), out, d, ref):
+                    res['claims'] += 1
+                    if abs(o - dv) <= 1e-9 * abs(rv * rho) and abs(o - rv * rho) <= 1e-9 * abs(rv * rho):
+                        res['discharged'] += 1
+                    elif len(res['violations']) < 5:
+                        res['violations'].append(dict(case=case.name, claim='composite_vs_direct_extreme.%s' % nme, values={'weight_scale': scale, 'density': rho},
+                                                      observed=[repr((float(o), float(dv))), repr(float(rv * rho))], how='concrete'))
+            except Exception as e:   # noqa: BLE001
+                res['claims'] += 1
+                if len(res['violations']) < 5:
+                    res['violations'].append(dict(case=case.name, claim='composite_vs_direct_extreme.no_exception', values={'weight_scale': scale, 'density': rho},
+                                                  observed=['%s: %s' % (type(e).__name__, e), None], how='concrete'))
     res['queries'] = res['distinct'] = res['claims']
     res['samples'] = [dict(materials=len(atoms), wavelengths=lams)]
     return res
